@@ -34,6 +34,9 @@ POS_NAMES = ["a_first", "m_middle", "z_last"]
 
 def first_snip(cid, k=0):
     c = [r for r in W.triggering(cid) if G.is_plain_snippet(r)]
+    if cid == "defectdojo:python/avoid-insecure-deserialization":
+        # its pipeline chains two transformers (yaml, pickle): prefer inputs that make both act
+        c.sort(key=lambda r: not ("pickle" in r["input"] and "yaml" in r["input"]))
     return c[k % len(c)]["idx"] if c else None
 
 
@@ -107,10 +110,14 @@ class C10(Check):
                     continue
                 for pos in range(3):
                     for k in range(2):
-                        exps.append({"kind": f"grid:{p}:seam", "pipeline": p, "files": grid_world(p), "include": PIPELINES[p],
-                                     "content_faults": [],
-                                     "seam_faults": [{"kind": fk, "file_pos": pos, "codemod_index": k, "nth": 1 if fk != "node-raise" else [1, 4, 12][pos]}],
-                                     "exec": {"sched": {"seed": pos * 2 + k, "policy": "fifo", "line_p": 0.0}, "workers": 1}})
+                        nths = [1 if fk != "node-raise" else [1, 4, 12][pos]]
+                        if fk == "transform-raise" and p == "defectdojo":
+                            nths.append(2)  # the second transformer of a chained pipeline raises after the first one acted
+                        for nth in nths:
+                            exps.append({"kind": f"grid:{p}:seam", "pipeline": p, "files": grid_world(p), "include": PIPELINES[p],
+                                         "content_faults": [],
+                                         "seam_faults": [{"kind": fk, "file_pos": pos, "codemod_index": k, "nth": nth}],
+                                         "exec": {"sched": {"seed": pos * 2 + k, "policy": "fifo", "line_p": 0.0}, "workers": 1}})
         return exps
 
     def gen(self, rng, i, tier):
@@ -144,7 +151,7 @@ class C10(Check):
             else:
                 fk = rng.choice(SEAM_FAULTS)
                 seam.append({"kind": fk, "file_pos": rng.randrange(len(files)), "codemod_index": rng.randrange(len(cids)),
-                             "nth": 1 if fk != "node-raise" else rng.choice([1, 3, 9, 30])})
+                             "nth": rng.choice([1, 1, 2]) if fk == "transform-raise" else (1 if fk != "node-raise" else rng.choice([1, 3, 9, 30]))})
         # at most one seam fault per file (keeps the narrow relaxation well defined)
         seen = set()
         seam = [s for s in seam if not (s["file_pos"] in seen or seen.add(s["file_pos"]))]
